@@ -43,7 +43,8 @@ def text_of(o: str, inherit: bool) -> str:
 def src_of(o: str, inherit: bool) -> str:
     """The 'source' the pipeline reports against and hands to the fallbacks (Docstring.tla Src)."""
     return "A" if ((o == "B" and inherit) or o == "V") else o
-NOFAULT = {"parse": "ok", "n": 1, "tostan": "ok", "summary": "ok", "toc": "none", "field": "ok", "node": "ok"}
+NOFAULT = {"parse": "ok", "n": 1, "tostan": "ok", "summary": "ok", "toc": "none", "field": "ok", "node": "ok",
+           "lvl": "warning", "tag": "none", "ann": "ok"}
 # a real epytext docstring whose ParsedEpytextDocstring.to_node() raises (an indented field before a top-level one leaves a
 # nested field list in the tree): realises the model's node = "once" on the real, unwrapped code
 ONCE_DOC = "Summary of %s here.\n  @note: x\n@note: y"
@@ -53,6 +54,9 @@ HANG_BUDGET = 12           # once that many calls had to be interrupted in a pha
 # proposed_fixes/C08-*.diff applied (used to try the fixes; flip the defaults when they are committed)
 _FIXED = os.environ.get("VERIF_C08_MODEL") != "prefix"      # the two defects are repaired in /repo (dac0793, 1bcc148)
 MODEL_CONSTANTS = "  PoisonedCache = %s\n  TocGuarded = %s\n" % (("FALSE", "TRUE") if _FIXED else ("TRUE", "FALSE"))
+# deviation rst-long-line-refused (open finding): VERIF_C08_LONGLINE=fixed describes the tree with the proposed fix
+LONGLINE_FIXED = os.environ.get("VERIF_C08_LONGLINE") == "fixed"
+MODEL_CONSTANTS += "  LongLineRefused = %s\n" % ("FALSE" if LONGLINE_FIXED else "TRUE")
 
 
 SCALE = [1]                # time limits are multiplied by this when a scenario that ran out of time is run a second time
@@ -88,7 +92,7 @@ def scenario_source(kind: str, inherit: bool, docA: str, docB: str) -> Tuple[str
         names = {"A": "m.Base.meth", "B": "m.Derived.meth"}
     elif kind == "attribute":
         tail = "" if inherit else f"\n    {b}"
-        src = (f"class Base:\n    v = 1\n    {a}\nclass Derived(Base):\n    v = 2{tail}\n"
+        src = (f"class Base:\n    v: int = 1\n    {a}\nclass Derived(Base):\n    v = 2{tail}\n"
                f"def other():\n    {fine}\n")
         names = {"A": "m.Base.v", "B": "m.Derived.v"}
     else:
@@ -156,7 +160,8 @@ def run_scenario(sc: Dict[str, Any]) -> Dict[str, Any]:
         by_text[clean["B"]] = "B"
         by_text[raw["B"]] = "B"
     # what the wrappers saw, per source docstring
-    seen = {o: {"parse": None, "n": 0, "tostan": "ok", "summary": "ok", "toc": "none", "field": "ok", "node": "ok"} for o in OBJS}
+    seen = {o: {"parse": None, "n": 0, "tostan": "ok", "summary": "ok", "toc": "none", "field": "ok", "node": "ok",
+                "lvl": "warning", "tag": "none", "ann": "ok"} for o in OBJS}
     last_call = {"lost": False}
     fallback_used = {"flag": False}
     reports: List[Tuple[str, int, bool]] = []       # (object fullName, number of messages, names the file)
@@ -336,6 +341,8 @@ def run_scenario(sc: Dict[str, Any]) -> Dict[str, Any]:
                 seen[who]["parse"] = "crash"
                 raise
             seen[who]["parse"] = "warn" if len(errs) > before else "ok"
+            if any(e.is_fatal() and "line-length-limit" in e.descr() for e in errs[before:]) and not pd.has_body and not pd.fields:
+                seen[who]["parse"] = "refused"        # docutils refused the input as a whole: NOTHING of the text in the result
             return Proxy(pd, who)
         return wrapped
 
@@ -379,6 +386,15 @@ def run_scenario(sc: Dict[str, Any]) -> Dict[str, Any]:
         fallback_used["flag"] = True
         return orig_dfb(errs, parsed_doc, ctx)
 
+    orig_gpt = epydoc2stan.get_parsed_type
+
+    def get_parsed_type(obj: Any) -> Any:
+        pt_ = orig_gpt(obj)
+        who = rev.get(obj.fullName())
+        if pt_ is not None and who is not None and fault(who, "ann") == "raises":
+            return Raising(pt_)
+        return pt_
+    epydoc2stan.get_parsed_type = get_parsed_type
     orig_field_format = epydoc2stan.Field.format
 
     def field_format(self: Any) -> Any:
@@ -430,7 +446,7 @@ def run_scenario(sc: Dict[str, Any]) -> Dict[str, Any]:
         except (Exception, HangAlarm) as e:
             # extract_fields (module / class docstrings are parsed while the module is built) let something escape
             blank = {"pd": {o: "none" for o in OBJS}, "ps": {o: "none" for o in OBJS}, "perr": {o: False for o in OBJS},
-                     "nrep": {o: 0 for o in OBJS}, "pz": {o: False for o in OBJS}, "lk": {o: "home" for o in OBJS}}
+                     "nrep": {o: 0 for o in OBJS}, "pz": {o: False for o in OBJS}, "lk": {o: "home" for o in OBJS}, "aerr": {o: False for o in OBJS}}
             F0 = {o: (dict(sc["declared"][o]) if "declared" in sc else dict(inject[o]) if inject else dict(NOFAULT)) for o in OBJS}
             return {"F": F0, "inherit": inherit, "kindA": model_kind(kind), "vdoc": False, "aux": [], "frame_ok": True, "xhtml": None, "reports": [],
                     "names": names, "seen": seen,
@@ -443,9 +459,10 @@ def run_scenario(sc: Dict[str, Any]) -> Dict[str, Any]:
             return {"skip": "docstring changed on the way through the builder"}
 
         def project() -> Dict[str, Any]:
-            st: Dict[str, Any] = {"pd": {}, "ps": {}, "perr": {}, "nrep": {}, "pz": {}, "lk": {}}
+            st: Dict[str, Any] = {"pd": {}, "ps": {}, "perr": {}, "nrep": {}, "pz": {}, "lk": {}, "aerr": {}}
             for o in OBJS:
                 ob = obs[o]
+                st["aerr"][o] = ob is not None and ob.fullName() in system.parse_errors["annotation"]
                 lnk = getattr(ob, "_linker", None) if ob is not None else None
                 st["lk"][o] = "home" if lnk is None or (not lnk._context_switched and lnk.reporting_obj is ob) else "away"
                 if ob is None:
@@ -472,6 +489,16 @@ def run_scenario(sc: Dict[str, Any]) -> Dict[str, Any]:
                     sum(n for (fn, n, _) in reports if fn == x.fullName()))
 
         events: List[Dict[str, Any]] = []
+        pre_exc = ""
+        if inject is not None and inject["A"].get("ann") == "raises":
+            # the page shows the annotation of an attribute before its docstring (type2stan, section 'annotation')
+            try:
+                with contextlib.redirect_stdout(sink), contextlib.redirect_stderr(sink), _Alarm(CALL_TIMEOUT * SCALE[0]):
+                    tv0 = epydoc2stan.type2stan(obs["A"])
+                    if tv0 is not None:
+                        flatten(tv0)
+            except (Exception, HangAlarm) as e:
+                pre_exc = f"{type(e).__name__}: {e}"[:200]
         st0 = project()
         x0 = xstate()
         frame_ok = True
@@ -504,7 +531,7 @@ def run_scenario(sc: Dict[str, Any]) -> Dict[str, Any]:
                         r = "undoc"
                     elif fallback_used["flag"] or pstate == "plain":
                         r = "plainfull" if (full and '<p class="pre">' in html) else ("broken" if "Broken description" in html else "partial")
-                    elif last_call["lost"]:
+                    elif last_call["lost"] or (seen[text_of(o, inherit)]["parse"] == "refused" and not re.sub(r"<[^>]*>", "", html).strip()):
                         r = "lost"
                     else:
                         r = "rendered"
@@ -520,6 +547,8 @@ def run_scenario(sc: Dict[str, Any]) -> Dict[str, Any]:
                 break                        # one hang is the verdict; the remaining calls would only wait again
         # the type of the field-documented attribute (type2stan, used by the attribute tables) must come out as well
         aux: List[Dict[str, Any]] = []
+        if pre_exc:
+            aux.append({"call": "type2stan", "o": "A", "r": "escaped", "exc": pre_exc})
         if obs["V"] is not None and not any(e["r"] == "timeout" for e in events):
             try:
                 with contextlib.redirect_stdout(sink), contextlib.redirect_stderr(sink), _Alarm(CALL_TIMEOUT * SCALE[0]):
@@ -577,6 +606,7 @@ def run_scenario(sc: Dict[str, Any]) -> Dict[str, Any]:
         epydoc2stan.reportErrors, epydoc2stan.format_docstring_fallback = orig_re, orig_dfb
         epydoc2stan.parse_docstring = orig_parse_docstring
         epydoc2stan.Field.format = orig_field_format
+        epydoc2stan.get_parsed_type = orig_gpt
     return out
 
 
@@ -629,7 +659,7 @@ def judge(tr: Dict[str, Any]) -> List[str]:
         if e["op"] == "summary" and e["r"] not in ("summary", "brokensum", "broken", "undoc"):
             bad.append("SummaryAlways")
         for o in OBJS:
-            if o != "V" and st["pd"][o] != "none" and F[text(o)]["parse"] != "ok" and not (st["perr"][src(o)] and st["nrep"][src(o)] >= 1):
+            if o != "V" and st["pd"][o] != "none" and F[text(o)]["parse"] != "ok" and not (F[text(o)]["parse"] == "refused" and LONGLINE_FIXED) and not (st["perr"][src(o)] and st["nrep"][src(o)] >= 1):
                 bad.append("ReportedWhenFailed")
             if (st["nrep"][o] > 0) != st["perr"][o]:
                 bad.append("OneReport")
@@ -688,6 +718,18 @@ def kf_toc_escapes(w: Dict[str, Any]) -> bool:
     return need is not None and "toc" in need
 
 
+def kf_long_line_refused(w: Dict[str, Any]) -> bool:
+    """Python twin of Docstring.tla KF (parse = refused): the only offence is the empty body of a reST-family docstring that
+    docutils refused as a whole (a line longer than line_length_limit), reported but not shown."""
+    tr, sc = w.get("trace") or {}, w.get("scenario") or {}
+    if w.get("failed") != ["FallbackComplete"] or sc.get("fmt") not in ("restructuredtext", "google", "numpy"):
+        return False
+    inherit = bool(tr.get("inherit"))
+    lost = [e for e in tr.get("ev", []) if e["op"] == "docstring" and e["r"] in ("lost", "partial", "broken")]
+    return bool(lost) and all(e["r"] == "lost" and tr["F"][text_of(e["o"], inherit)]["parse"] == "refused" for e in lost) \
+        and max(len(l) for l in sc.get("docA", "").split("\n")) > 10000
+
+
 def kf_poisoned_cache(w: Dict[str, Any]) -> bool:
     """Python twin of Docstring.tla KF_PoisonedCache: the only offence is a body rendered from the half-built cached
     document of an epytext docstring whose to_node() had failed (unreported) in get_summary / get_toc before."""
@@ -718,20 +760,44 @@ W_FIELD = {"epytext": "@ivar w: See L{meth} and L{nosuch.thing}.\n"}
 W_FIELD.update({f: ":ivar w: See `meth` and `nosuch.thing`.\n" for f in ("restructuredtext", "google", "numpy")})
 
 
-def inj_scenario(rec: Dict[str, Any], fmt: str, pt: bool, sur: bool = False) -> Dict[str, Any]:
+# reST texts with ONE markup problem docutils recovers from, by the level docutils gives it
+LVL_TEXT = {"info": ["Summary of %s.\n\nTitle\n==\n\nText.\n", "Summary of %s.\n\n3. item\n4. item\n", "Summary of %s::\n  x\n\ny\n"],
+            "error": ["Summary of %s with |nosub| here.\n", "Summary of %s with nosuchtarget_ here.\n"],
+            "severe": ["Summary of %s.\n\nA\n===\n\nB\n---\n\nC\n~~~\n\nD\n---\n\nE\n^^^\n"]}
+
+
+def helper_tags() -> List[str]:
+    """Field tags that are names of methods of the class dispatching on tags, in the tree under test."""
+    from pydoctor import epydoc2stan
+    return sorted({n[len("handle_"):] for n in dir(epydoc2stan.FieldHandler) if n.startswith("handle_") and n != "handle_"})
+
+
+def inj_scenario(rec: Dict[str, Any], fmt: str, pt: bool, sur: bool = False, idx: int = 0) -> Dict[str, Any]:
     """The real scenario that realises one enumerated behaviour of Docstring.tla."""
     F = rec["F"]
     def doc(o: str) -> str:
         if F[o]["node"] == "once":
             return ONCE_DOC % o
+        if F[o]["parse"] == "refused":
+            return "Summary of %s.\n\n%s\n\nThe end.\n" % (o, "word " * 2100)
+        if F[o]["lvl"] != "warning":
+            alts = LVL_TEXT[F[o]["lvl"]]
+            return alts[idx % len(alts)] % o
         base = TITLED if F[o]["toc"] in ("ok", "stanraises", "noderaises") else PLAIN
         return base[fmt].replace("Summary", "Summary of %s" % o, 1)
     docA = doc("A")
+    if F["A"]["tag"] != "none":
+        tags = helper_tags()
+        tag = "zzzunknown" if F["A"]["tag"] == "unknown" else tags[idx % len(tags)]
+        with_arg = (idx // max(1, len(tags))) % 2
+        docA = docA.rstrip("\n") + "\n" + (("@%s%s: some text\n" if fmt == "epytext" else ":%s%s: some text\n") % (tag, " x" if with_arg else ""))
     if sur:             # a lone surrogate in the text: legal in a string literal, cannot be written to a page as it is
         docA = docA.replace("Summary of A", "Summary of A \ud800", 1)
     if rec["kindA"] == "cls" and fmt != "plaintext":      # the field that documents the attribute v
         docA = docA.rstrip("\n") + ("\n@ivar v: The I{v} attribute.\n" if fmt == "epytext" else "\n:ivar v: The *v* attribute.\n") + W_FIELD[fmt]
     kind = "class" if rec["kindA"] == "cls" else ("method" if rec["inherit"] else "function")
+    if F["A"]["ann"] == "raises":
+        kind = "attribute"                    # the object with an annotation: Base.v (inherited by Derived.v or not)
     return {"fmt": fmt, "pt": pt, "kind": kind, "inherit": rec["inherit"], "docA": docA, "docB": doc("B"),
             "faults": inject_for(F), "declared": F, "order": [[x["o"], x["op"]] for x in rec["res"]],
             "wfield": rec["kindA"] == "cls" and fmt != "plaintext"}
@@ -739,7 +805,7 @@ def inj_scenario(rec: Dict[str, Any], fmt: str, pt: bool, sur: bool = False) -> 
 
 def _inj_job(job: Tuple[Dict[str, Any], str, bool]) -> Dict[str, Any]:
     rec, fmt, pt = job[:3]
-    sc = inj_scenario(rec, fmt, pt, sur=len(job) > 3 and job[3])
+    sc = inj_scenario(rec, fmt, pt, sur=len(job) > 3 and job[3], idx=job[4] if len(job) > 4 else 0)
     tr = run_scenario(sc)
     tr["sc"] = sc
     return tr
@@ -767,7 +833,8 @@ COMMON = ["\n", "\n\n", " ", "  ", "    ", "word", "a.b.c", "(", ")", "[", "]", 
 CURATED = [("curated", ".. default-role:: emphasis\n\n`x` here.\n\n.. VersionAdded:: 1\n"),
            ("curated", "Summary.\n\n.. default-role:: literal\n\n.. unknowndirective:: x\n\n`y`\n"),
            ("curated", "Summary \ud800 with I{a\u00a0b} and *a\u00a0b*.\n"),
-           ("curated", "Para\n  @note: x\n@note: y")]
+           ("curated", "Para\n  @note: x\n@note: y"),
+           ("curated", "Summary.\n\n" + "word " * 2100 + "\n\nThe end.\n")]
 
 
 def real_docstrings(limit: int = 400) -> List[str]:
@@ -954,7 +1021,13 @@ def tlc_trace(tr: Dict[str, Any]) -> Dict[str, Any]:
 
 def inject_for(F: Dict[str, Any]) -> Dict[str, Any]:
     """The faults to inject for an enumerated configuration: node = 'once' is realised by the docstring itself."""
-    return {o: (dict(NOFAULT) if F[o]["node"] == "once" else dict(F[o])) for o in OBJS}
+    out = {}
+    for o in OBJS:
+        f = dict(NOFAULT) if F[o]["node"] == "once" else dict(F[o])
+        if f["lvl"] != "warning" or f["parse"] == "refused":
+            f["parse"] = "ok"             # nothing injected: the real parser recovers from / refuses the real text
+        out[o] = f
+    return out
 
 
 JOB_DEADLINE = 45          # seconds for one scenario in a worker process, then the process is KILLED: a loop inside C code
@@ -1078,7 +1151,7 @@ def budgeted_map(fn: Any, jobs: List[Any], nproc: int, hung: Any, deadline: int 
 def hung_trace(job: Dict[str, Any]) -> Dict[str, Any]:
     """The trace of a scenario whose worker had to be killed: one call that never returned."""
     blank = {"pd": {o: "none" for o in OBJS}, "ps": {o: "none" for o in OBJS}, "perr": {o: False for o in OBJS},
-             "nrep": {o: 0 for o in OBJS}, "pz": {o: False for o in OBJS}, "lk": {o: "home" for o in OBJS}}
+             "nrep": {o: 0 for o in OBJS}, "pz": {o: False for o in OBJS}, "lk": {o: "home" for o in OBJS}, "aerr": {o: False for o in OBJS}}
     return {"F": {o: dict(NOFAULT) for o in OBJS}, "inherit": job.get("inherit", False), "kindA": model_kind(job.get("kind", "function")),
             "vdoc": False, "aux": [], "st0": blank, "frame_ok": True, "xhtml": None, "reports": [], "names": {}, "seen": {},
             "ev": [{"o": "A", "op": "?", "r": "timeout", "st": blank, "full": False,
@@ -1090,6 +1163,7 @@ def run(ctx: Ctx) -> int:
     rng = random.Random(ctx.seed)
     ctx.register_matcher("format-toc-unguarded", kf_toc_escapes)
     ctx.register_matcher("epytext-half-built-document-cached", kf_poisoned_cache)
+    ctx.register_matcher("rst-long-line-refused", kf_long_line_refused)
     nproc = max(2, min(NCPU, 16))
     all_traces: List[Dict[str, Any]] = []
 
@@ -1171,20 +1245,25 @@ def run(ctx: Ctx) -> int:
     jobs = []
     markup_fmts = [f for f in FMTS if f != "plaintext"]
     for idx, rec in enumerate(chosen):
-        needs_titles = any(rec["F"][o]["toc"] in ("ok", "stanraises") or rec["F"][o]["field"] == "raises"
+        needs_titles = any(rec["F"][o]["toc"] in ("ok", "stanraises") or rec["F"][o]["field"] == "raises" or rec["F"][o]["tag"] != "none"
                            for o in OBJS) or rec.get("vdoc", False)   # plain text has neither section titles nor fields
         fmt = markup_fmts[idx % len(markup_fmts)] if needs_titles else FMTS[idx % len(FMTS)]
         if any(rec["F"][o]["node"] == "once" for o in OBJS):
             fmt = "epytext"                              # the deviation lives in ParsedEpytextDocstring
-        jobs.append((rec, fmt, bool((idx // len(FMTS)) % 2), idx % 3 == 0))
+        if any(rec["F"][o]["lvl"] != "warning" or rec["F"][o]["parse"] == "refused" for o in OBJS):
+            fmt = ("restructuredtext", "google", "numpy")[idx % 3]     # what docutils recovers from
+        jobs.append((rec, fmt, bool((idx // len(FMTS)) % 2), idx % 3 == 0, idx))
     hung_tr = lambda t: t.get("hung") or any(e["r"] == "timeout" for e in t.get("ev", []))
     results, cut_inj = budgeted_map(_inj_job, jobs, nproc, hung_tr)
     jobs = jobs[:len(results)]
     ctx.extra["inject_slow_not_hung"] = second_opinion(_inj_job, jobs, results, nproc, hung_tr)
+    if any(hung_tr(t) for t in results):            # well-formed templates: a third try before calling it a failure of ours
+        ctx.extra["inject_slow_not_hung"] += second_opinion(_inj_job, jobs, results, 2, hung_tr)
     if cut_inj or any(hung_tr(t) for t in results):
-        raise MachineryError("an injected scenario (well-formed template text) did not return: not a docstring-specific hang")
+        stuck = [(j[1], j[0]["F"], j[0]["kindA"], [[x["o"], x["op"]] for x in j[0]["res"]]) for j, t in zip(jobs, results) if hung_tr(t)][:3]
+        raise MachineryError(f"an injected scenario (well-formed template text) did not return: not a docstring-specific hang: {stuck}")
     mism = 0
-    for (rec, fmt, pt, _sur), tr in zip(jobs, results):
+    for (rec, fmt, pt, _sur, _idx), tr in zip(jobs, results):
         if "skip" in tr:
             raise MachineryError(f"injected scenario could not be built: {tr['skip']}")
         ctx.traces += 1
